@@ -16,12 +16,12 @@ type exitInv struct {
 	prev  *View
 	model map[string]*exitRec // record key -> model record
 	// statistics
-	maxOverlap    int
-	holdsSeen     int
-	releases      int
-	postponed     int
+	maxOverlap     int
+	holdsSeen      int
+	releases       int
+	postponed      int
 	collisionProne int
-	accepted      int
+	accepted       int
 }
 
 type exitRec struct {
@@ -286,7 +286,7 @@ func (e *exitInv) After(m *Machine, a *Action, o Outcome) error {
 	}
 	if blocks > 0 {
 		endedHeight := uint64(m.C.Height - 1) // the block whose EndBlock just ran
-		credit := map[string]*big.Int{}      // staker|asset -> expected credit
+		credit := map[string]*big.Int{}       // staker|asset -> expected credit
 		for _, k := range sortedKeys(released) {
 			r := released[k]
 			if r.Due != endedHeight {
